@@ -345,6 +345,11 @@ class _Continue(Exception):
     pass
 
 
+class _TEReturn(Exception):
+    def __init__(self, value):
+        self.value = value
+
+
 BUILTINS = {
     "isinstance", "dict", "list", "tuple", "frozenset", "set", "len", "range", "sorted",
     "type", "max", "min", "zip", "int", "bytes", "str", "bool", "enumerate", "classmethod",
@@ -638,6 +643,8 @@ class TE:
                 self._poison(st, env, f"{mod}:{st.lineno} if-test not evaluable")
                 return
             self.exec_block(st.body if c else st.orelse, env, mod)
+        elif isinstance(st, ast.Return):
+            raise _TEReturn(self.ev(st.value, env, mod) if st.value is not None else None)
         elif isinstance(st, ast.Continue):
             raise _Continue()
         elif isinstance(st, ast.Try):
@@ -655,6 +662,14 @@ class TE:
                 except AnalysisError as ex:
                     if isinstance(root, ast.Name):
                         env[root.id] = Unknown(f"{mod}:{st.lineno} {v.func.attr}() not evaluable: {ex}")
+            elif isinstance(v, ast.Call) and isinstance(v.func, ast.Name) and isinstance(env.get(v.func.id) if hasattr(env, "get") else None, FuncRef):
+                # a module-level helper called for its effect on the tables it is given (`_inherit_commands(COMMANDS, PREVIOUS)`)
+                try:
+                    self.ev(v, env, mod)
+                except AnalysisError as ex:
+                    for a_ in v.args:
+                        if isinstance(a_, ast.Name):
+                            env[a_.id] = Unknown(f"{mod}:{st.lineno} {v.func.id}() not evaluable: {ex}")
         elif isinstance(st, (ast.Pass, ast.Assert, ast.With)):
             pass
         else:
@@ -820,6 +835,10 @@ class TE:
             lv = l.value if isinstance(l, Member) else l
             rv = r.value if isinstance(r, Member) else r
             return f(lv, rv)
+        if isinstance(op, ast.BitOr) and isinstance(l, dict) and isinstance(r, dict):
+            return {**l, **r}
+        if isinstance(op, ast.BitOr) and isinstance(l, (set, frozenset)) and isinstance(r, (set, frozenset)):
+            return l | r
         if isinstance(op, ast.BitOr) and isinstance(l, (TypeRef, ClassRef)):
             return TypeRef("typing.Union", (l, r))
         raise AnalysisError(f"{mod}:{e.lineno} binop {type(op).__name__} on {l!r},{r!r}")
@@ -1111,12 +1130,19 @@ class TE:
             loc[n] = v
         loc.update(kw)
         env = _ChainEnv(loc, menv)
-        for st in node.body:
-            if isinstance(st, ast.Expr) and isinstance(st.value, ast.Constant):
-                continue
-            if isinstance(st, ast.Return):
-                return self.ev(st.value, env, f.mod)
-            raise AnalysisError(f"{mod}:{e.lineno} helper {f.name} is not a single return expression")
+        if getattr(self, "_inline_depth", 0) > 6:
+            raise AnalysisError(f"{mod}:{e.lineno} helper {f.name}: inlining too deep")
+        self._inline_depth = getattr(self, "_inline_depth", 0) + 1
+        try:
+            # module-level table builders: straight-line code, loops over tables, guards, a return
+            self.exec_block(node.body, env, f.mod)
+        except _TEReturn as r:
+            return r.value
+        finally:
+            self._inline_depth -= 1
+        for k_, v_ in loc.items():
+            if isinstance(v_, Unknown) and k_ in names:
+                raise AnalysisError(f"{mod}:{e.lineno} helper {f.name} could not be evaluated: {v_.why}")
         return None
 
 
